@@ -8,6 +8,7 @@ import (
 	"errors"
 	"fmt"
 	"io"
+	"math"
 	"reflect"
 	"strings"
 	"testing"
@@ -30,7 +31,8 @@ type Script struct {
 	Method   int    `json:"method"`
 	// Args selects the shape of the arguments: bits 0-1 the context (0 live, 1 cancelled,
 	// 2 past its deadline), bits 2-3 the integers (0 unique sentinels, 1 all zero, 2 all -1,
-	// 3 zero then -1: the "whole blob" range), bit 4 empty strings instead of sentinels.
+	// 3 zero then -1: the "whole blob" range), bit 4 empty strings instead of sentinels,
+	// bits 5-6 further integers when bits 2-3 are 0 (1 all -2, 2 math.MinInt64, 3 math.MaxInt64).
 	Args int `json:"args,omitempty"`
 }
 
@@ -120,6 +122,18 @@ func argsFor(t reflect.Type, salt int, shape int) []reflect.Value {
 				n = -1
 			case 3:
 				n = -int64(min(nint, 1))
+			case 0:
+				switch (shape >> 5) & 3 {
+				case 1:
+					n = -2
+				case 2:
+					n = math.MinInt64
+				case 3:
+					n = math.MaxInt64
+				}
+			}
+			if at.Kind() == reflect.Int && (n > math.MaxInt32 || n < math.MinInt32) {
+				n = n >> 32 // (an int argument: keep it portable)
 			}
 			nint++
 			args[i] = reflect.ValueOf(n).Convert(at)
@@ -388,6 +402,21 @@ func run(s Script, v *vt.V) {
 		}
 		if w.newErrs[0].ctx != args[0].Interface() {
 			v.Failf("unset-wrong-error", "%s: constructor did not receive the caller's context", fd.method)
+			return
+		}
+		// the constructor is told which method was called, and on which repository
+		if w.newErrs[0].method != fd.method {
+			v.Failf("unset-wrong-error", "%s unset: the constructor was called for method %q", fd.method, w.newErrs[0].method)
+			return
+		}
+		okRepo := fd.method == "Repositories" && w.newErrs[0].repo == ""
+		for _, a := range args {
+			if a.Kind() == reflect.String && a.String() == w.newErrs[0].repo && fd.method != "Repositories" {
+				okRepo = true
+			}
+		}
+		if !okRepo {
+			v.Failf("unset-wrong-error", "%s unset: the constructor was given repository %q, which is none of the call's arguments", fd.method, w.newErrs[0].repo)
 		}
 		return
 	}
@@ -407,14 +436,14 @@ func callFields(cs []call) []string {
 var propRandom = &vt.Prop[Script]{
 	ID:   "C20",
 	Name: "FuncsRandomTable",
-	Rule: "rapid: uniformly random set/unset assignment to all function fields (found by reflection) x nil/non-nil table x with/without NewError x method called x argument shape (live / cancelled / expired context; unique, zero, negative and whole-blob-range integers; empty strings); non-trivial = nil table, or some other field's set-state differs from the called method's; distinct = (nil, assignment bits, NewError, method)",
+	Rule: "rapid: uniformly random set/unset assignment to all function fields (found by reflection) x nil/non-nil table x with/without NewError x method called x argument shape (live / cancelled / expired context; unique, zero, -1, -2, minimal, maximal and whole-blob-range integers; empty strings); non-trivial = nil table, or some other field's set-state differs from the called method's; distinct = (nil, assignment bits, NewError, method)",
 	Gen: func(t *rapid.T) Script {
 		return Script{
 			Nil:      rapid.IntRange(0, 15).Draw(t, "nil") == 0,
 			Set:      rapid.Uint64Range(0, uint64(1)<<uint(len(fields))-1).Draw(t, "set"),
 			NewError: rapid.Bool().Draw(t, "newError"),
 			Method:   rapid.IntRange(0, len(fields)-1).Draw(t, "method"),
-			Args:     rapid.SampledFrom([]int{0, 0, 1, 2, 4, 8, 12, 16, 13, 30}).Draw(t, "args"),
+			Args:     rapid.SampledFrom([]int{0, 0, 1, 2, 4, 8, 12, 16, 13, 30, 32, 64, 96, 33, 80}).Draw(t, "args"),
 		}
 	},
 	Run: run,
@@ -423,7 +452,7 @@ var propRandom = &vt.Prop[Script]{
 var propStructured = &vt.Prop[Script]{
 	ID:   "C20",
 	Name: "FuncsStructured",
-	Rule: "enumeration of the assignments the property names: each method alone, all-but-one, all, none, every pair (called method's field, one neighbour) in all four set-states, nil table; x with/without NewError x all methods x six argument shapes (live, cancelled and expired contexts, zero / negative integers, the (0,-1) range, empty strings)",
+	Rule: "enumeration of the assignments the property names: each method alone, all-but-one, all, none, every pair (called method's field, one neighbour) in all four set-states, nil table; x with/without NewError x all methods x nine argument shapes (live, cancelled and expired contexts, zero / -1 / -2 / minimal / maximal integers, the (0,-1) range, empty strings)",
 	Run:  run,
 }
 
@@ -454,7 +483,7 @@ func TestPropStructured(t *testing.T) {
 		}
 		for m := 0; m < n; m++ {
 			for _, ne := range []bool{false, true} {
-				for _, shape := range []int{0, 1, 2, 12, 16, 29} {
+				for _, shape := range []int{0, 1, 2, 12, 16, 29, 32, 64, 96} {
 					if !emit(Script{Nil: true, NewError: ne, Method: m, Args: shape}) {
 						return
 					}
